@@ -392,12 +392,42 @@ OBJ = ["Module", "Class", "Function", "Attribute"]
 # --------------------------------------------------------------------------- bounded tier: operation histories on the real API
 def bounded_checks(tier, seed):
     import json, os, subprocess, time
+    from concurrent.futures import ThreadPoolExecutor
     from pyvc.run import VERIF, VENV_PY, REPO_SRC
+
+    def run(*args):
+        r = subprocess.run([VENV_PY, "-m", "replay.C16", *map(str, args)], capture_output=True, text=True, cwd=str(VERIF), env=dict(os.environ, PYTHONPATH=str(REPO_SRC)),
+                           timeout=3600)
+        if r.returncode != 0:
+            raise RuntimeError("bounded C16 sweep crashed: " + r.stderr[-1500:])
+        return json.loads(r.stdout.strip().splitlines()[-1])
+    out = []
     t0 = time.time()
-    r = subprocess.run([VENV_PY, "-m", "replay.C16"], capture_output=True, text=True, cwd=str(VERIF), env=dict(os.environ, PYTHONPATH=str(REPO_SRC)), timeout=600)
-    if r.returncode != 0:
-        raise RuntimeError("bounded C16 sweep crashed: " + r.stderr[-1500:])
-    d = json.loads(r.stdout.strip().splitlines()[-1])
-    return [{"check": "history_sweep", "tool": "native scenario sweep with the global tree invariant evaluated after each history",
-             "bound": f"{d['scenarios']} histories of <= 7 operations over <= 6 objects (every operation and key form)", "cases": d["scenarios"],
-             "failing": len(d["problems"]), "wall_s": round(time.time() - t0, 1), "violations": d["problems"]}]
+    d = run()
+    out.append({"check": "history_sweep", "tool": "native scenario sweep with the global tree invariant evaluated after each history",
+                "bound": f"{d['scenarios']} histories of <= 7 operations over <= 6 objects (every operation and key form)", "cases": d["scenarios"],
+                "failing": len(d["problems"]), "wall_s": round(time.time() - t0, 1), "violations": d["problems"]})
+    # the statement's own quantifier: exhaustive for short sequences, random for long ones, a reference dictionary after every step
+    length, shards = (3, 4) if tier == "quick" else (4, 16)
+    t0 = time.time()
+    with ThreadPoolExecutor(shards) as ex:
+        parts = list(ex.map(lambda sh: run("exhaustive", length, 1500, sh, shards), range(shards)))
+    probs = [p for d in parts for p in d["problems"]]
+    out.append({"check": "histories.exhaustive", "tool": "native: every operation sequence on the real API against a reference dictionary, invariants after every step",
+                "bound": f"all sequences of <= {length} operations over module m, names a/b, kinds Class/Function/Attribute, 4 key forms, deletions, aliases by object and by path, "
+                         "self-target attempts" + ("; CUT SHORT by the time budget" if any(d["cut_short"] for d in parts) else ""),
+                "cases": sum(d["sequences"] for d in parts), "failing": len(probs), "wall_s": round(time.time() - t0, 1), "violations": probs})
+    n_seeds, n_hist, budget = (4, 4000, 20) if tier == "quick" else (16, 200000, 240)
+    t0 = time.time()
+    with ThreadPoolExecutor(n_seeds) as ex:
+        parts = list(ex.map(lambda i: run("random", seed * 1000 + i, n_hist, 14, budget), range(n_seeds)))
+    probs, seen = [], set()
+    for d in parts:
+        for p in d["problems"]:
+            if p["signature"] not in seen or not p["signature"].startswith("stale"):
+                probs.append(p)
+                seen.add(p["signature"])
+    out.append({"check": "histories.random", "tool": "native: random operation sequences on the real API against a reference dictionary, invariants after every step",
+                "bound": f"{n_seeds} seeds x <= {n_hist} histories of <= 14 operations over names a/b/c incl. sub-modules and classes (time box {budget} s per seed)",
+                "cases": sum(d["steps"] for d in parts), "failing": len(probs), "wall_s": round(time.time() - t0, 1), "violations": probs})
+    return out
